@@ -26,6 +26,7 @@
   `Auth.plInt` under a rule set with that flag off (`serdeRules`).
 -/
 import RumaModel.Model.Auth
+import RumaModel.Model.Redact
 namespace Ruma.PowerLevels
 open Ruma Ruma.Auth Ruma.Ident
 
@@ -99,6 +100,43 @@ def ofContent (c : Obj) : Option Levels :=
   match ofContentR c with
   | .ok l => some l
   | .error _ => none
+
+/-! ## The redacted event (`RedactedRoomPowerLevelsEventContent`) -/
+
+/-- `serde_json::from_str::<RedactedRoomPowerLevelsEventContent>(content)` then
+`From<RedactedRoomPowerLevelsEventContent> for RoomPowerLevels`: the redacted content type has the
+same nine level fields with the same serde attributes (`invite` included: it survives redaction from
+room version 11 on) and no `notifications` field (an unknown key is ignored by the derive); the
+conversion fills `notifications` with its default. -/
+def ofRedactedContentR (c : Obj) : Res Levels := do
+  let ban ← intField c (bs "ban") defaultPowerLevel
+  let events ← mapField c (bs "events") (fun k => some (canonType k))
+  let eventsDefault ← intField c (bs "events_default") 0
+  let invite ← intField c (bs "invite") 0
+  let kick ← intField c (bs "kick") defaultPowerLevel
+  let redact ← intField c (bs "redact") defaultPowerLevel
+  let stateDefault ← intField c (bs "state_default") defaultPowerLevel
+  let users ← mapField c (bs "users") (fun k => if validUserId k then some k else none)
+  let usersDefault ← intField c (bs "users_default") 0
+  .ok { ban, events, eventsDefault, invite, kick, redact, stateDefault, users, usersDefault,
+        notificationsRoom := defaultPowerLevel }
+
+/-- `redact_content_in_place(content, rules, "m.room.power_levels")` as a total function: the entries
+whose key `retained_event_content_keys` keeps (`Lemmas/PowerLevelsRedacted.redactContent_powerLevels`
+proves that this is what the model of the redaction algorithm returns, and that it never fails). -/
+def redactedPL (r : Redact.Rules) (c : Obj) : Obj :=
+  c.filter (fun e => Redact.powerLevelsKey r e.1)
+
+def ofRedactedContent (c : Obj) : Option Levels :=
+  match ofRedactedContentR c with
+  | .ok l => some l
+  | .error _ => none
+
+/-- `RedactContent::redact(self, rules)` on the typed content followed by the conversion to
+`RoomPowerLevels`: `invite` is kept iff `rules.keep_room_power_levels_invite`, otherwise it becomes 0;
+`notifications` is dropped (default 50); every other field is copied. -/
+def redactLevels (keepInvite : Bool) (l : Levels) : Levels :=
+  { l with invite := if keepInvite then l.invite else 0, notificationsRoom := defaultPowerLevel }
 
 /-! ## Event-type arguments -/
 
